@@ -71,7 +71,7 @@ def _is_given(t, given):
         if a == given:
             continue
         if a[0] == "call" and a[1][0] in ("func", "global") and a[1][1] in _CONVERSIONS and len(a[2]) >= 1 and _is_given(a[2][0], given) \
-                and all(k == "dtype" and v[0] in ("func", "global") and v[1] in ("builtins.float", "numpy.float64") for k, v in a[3]) and len(a[2]) == 1:
+                and all(k == "dtype" and v[0] in ("func", "global") and v[1] in ("builtins.float", "float", "numpy.float64") for k, v in a[3]) and len(a[2]) == 1:
             continue
         return False
     return True
@@ -155,6 +155,7 @@ def values(prog, rep):
         # list does not have (c * list even repeats it). A bare given may reach them only where it is known to be a scalar.
         gb = builder(prog, fn, inline=False, guarded=True)
         bare = []
+        intconv = []
         for st in cfg.all_stmts():
             for call in [n for n in ast.walk(st) if isinstance(n, ast.Call)] if isinstance(st, (ast.Assign, ast.Return, ast.Expr)) else []:
                 t = gb.term(call, st)
@@ -163,10 +164,16 @@ def values(prog, rep):
                         for lits, a in top_alts(alt[2][0]):
                             if a == given and not any(_says_scalar(l, given) for l in tuple(pcs.of(st)) + tuple(lits)):
                                 bare.append(st)
+                            if a != given and a[0] == "call" and not any(k == "dtype" for k, _v in a[3]):
+                                intconv.append(st)
         rep.check(not bare, "C08.values", f"{q}:dependent:array-like", fn.where(bare[0]) if bare else fn.where(dep),
                   "a non-scalar given reaches the dependence functions as np.asarray(given)",
                   "given is 'float or array_like', but a list given reaches the dependence functions unconverted: their arithmetic (x ** c, c * x) "
                   "raises or repeats the list; convert a non-scalar given with np.asarray first")
+        rep.check(not intconv, "C08.values", f"{q}:dependent:float", fn.where(intconv[0]) if intconv else fn.where(dep),
+                  "the conditioning values are converted to float",
+                  "np.asarray(given) keeps an integer dtype: cd.pdf([1.5, 2.0, 3.0], [1, 2, 4]) with sigma(x) = a + b * x ** -2 raises 'Integers to negative integer powers are not "
+                  "allowed' (model.pdf([[1, 2], [2, 3]]) too) while the pairs one at a time and given=[1., 2., 4.] work; convert with dtype=float")
     if fix is None:
         rep.fail("C08.values", f"{q}:fixed", fn.where(), "no store of a fixed value found")
     rep.check(fresh, "C08.values", f"{q}:result", fn.where(ret[-1]), "returns the freshly built dict",
@@ -322,18 +329,35 @@ def chain(prog, rep):
     bc = builder(prog, call, inline=False)
     pc = path_conditions(prog, call, bc)
     found = found2 = False
+    positional = []
     for st in cfg_of(call).all_stmts():
         if isinstance(st, ast.Return):
             t = bc.term(st.value, st)
             vals = ("call", ("attr", ("attr", SELF, "parameters"), "values"), (), ())
+            PARAMS = ("attr", SELF, "parameters")
+            named = ("call", G("dict"), (("call", G("zip"), (PARAMS, P("args")), ()),), ())
+            named2 = ("call", G("dict"), (("call", G("zip"), (("call", ("attr", PARAMS, "keys"), (), ()), P("args")), ()),), ())
             if t == ("call", ("attr", SELF, "func"), (P("x"), ("star", vals)), ()):
+                found = True
+                positional.append(st)
+            if t == ("call", ("attr", SELF, "func"), (P("x"),), (("**", PARAMS),)):
                 found = True
             if t == ("call", ("attr", SELF, "func"), (P("x"), ("star", P("args"))), (("**", P("kwargs")),)):
                 found2 = True
-    rep.check(found, "C08.chain", f"{call.qualname}:stored", call.where(), "self.func(x, *self.parameters.values())",
+                positional.append(st)
+            if t[0] == "call" and t[1] == ("attr", SELF, "func") and t[2] == (P("x"),) and sorted(t[3], key=repr) in (sorted([("**", named), ("**", P("kwargs"))], key=repr),
+                                                                                                                   sorted([("**", named2), ("**", P("kwargs"))], key=repr)):
+                found2 = True
+    rep.check(found, "C08.chain", f"{call.qualname}:stored", call.where(), "self.func(x, **self.parameters)",
               "without explicit parameters the function must be evaluated at x with the stored parameter values in order")
-    rep.check(found2, "C08.chain", f"{call.qualname}:explicit", call.where(), "self.func(x, *args, **kwargs)",
+    rep.check(found2, "C08.chain", f"{call.qualname}:explicit", call.where(), "self.func(x, <the given values, by name>)",
               "with explicit parameters the function must be evaluated at x with exactly those")
+    # the constructor binds a conditioner BY KEYWORD (partial(func, **{key: dep})): coefficients passed by POSITION then land in the conditioner's slot unless
+    # it happens to be the last parameter of func
+    rep.check(not positional, "C08.chain", f"{call.qualname}:by-name", call.where(positional[0]) if positional else call.where(), "the coefficients reach func by name",
+              "the coefficients are passed to func positionally although a dependence-function parameter was bound by keyword: def alpha(x, d_of_x, a=2.0, b=0.3) with "
+              "d_of_x=beta_dep raises \"got multiple values for argument 'd_of_x'\" (the chain can be neither evaluated nor fitted; it works only with the conditioner LAST); "
+              "pass **self.parameters / **dict(zip(self.parameters, args))")
     # predefined: a function-valued parameter is evaluated at the function's own first argument
     n = 0
     for q, fn in sorted(prog.functions.items()):
